@@ -1,7 +1,8 @@
 -------------------------------- MODULE GitRepo --------------------------------
 (* A git repository as zerv sees it: a commit DAG, branches, HEAD (on a branch or  *)
 (* detached) and tags (lightweight or annotated, several per commit, any name).    *)
-(* Actions are the git operations a session performs.  The facts zerv must report   *)
+(* Actions are the git operations a session performs (including history rewriting:  *)
+(* reset --hard, commit --amend, tag -f).  The facts zerv must report   *)
 (* (C02) are stated declaratively on the DAG: nearest validly tagged               *)
 (* ancestor-or-self, highest version on it, distance, branch.                      *)
 (* Commits are numbered 1, 2, 3 ... in creation order; commit 1 is the root.       *)
@@ -48,7 +49,9 @@ Detach(c) == /\ c \in 1..N
 MergeFF(b) == /\ b \in DOMAIN branches /\ HeadCommit # branches[b] /\ HeadCommit \in Anc(branches[b])
               /\ MoveHead(branches[b]) /\ UNCHANGED <<parents, tags>>
 \* a real merge commit: the other branch has something HEAD does not
+\* (git refuses to merge histories without a common ancestor - possible after the root was amended)
 MergeNoFF(b) == /\ N < MaxCommits /\ b \in DOMAIN branches /\ branches[b] \notin Anc(HeadCommit)
+                /\ Anc(HeadCommit) \cap Anc(branches[b]) # {}
                 /\ parents' = Append(parents, <<HeadCommit, branches[b]>>)
                 /\ MoveHead(N + 1) /\ tags' = tags
 Tag(t, annotated) == /\ ~\E x \in tags : x.name = t
@@ -56,6 +59,18 @@ Tag(t, annotated) == /\ ~\E x \in tags : x.name = t
                      /\ UNCHANGED <<parents, branches, head>>
 DeleteTag(t) == /\ \E x \in tags : x.name = t
                 /\ tags' = { x \in tags : x.name # t } /\ UNCHANGED <<parents, branches, head>>
+\* ---- history rewriting: commits and tags can become unreachable from every ref ----
+\* reset --hard <commit>: the checked-out branch (or the detached HEAD) moves to any existing commit
+Reset(c) == /\ c \in 1..N /\ c # HeadCommit
+            /\ MoveHead(c) /\ UNCHANGED <<parents, tags>>
+\* commit --amend: a new commit with the parents of the old HEAD commit takes its place
+Amend == /\ N < MaxCommits
+         /\ parents' = Append(parents, parents[HeadCommit])
+         /\ MoveHead(N + 1) /\ tags' = tags
+\* tag -f: an existing tag name is moved to HEAD (and may change its kind)
+MoveTag(t, annotated) == /\ \E x \in tags : x.name = t
+                         /\ tags' = { x \in tags : x.name # t } \cup {[name |-> t, c |-> HeadCommit, annotated |-> annotated]}
+                         /\ UNCHANGED <<parents, branches, head>>
 
 \* ------------------------------------------------------------ what zerv reports --
 IsSv(t) == SVG!IsSemVer(t) /\ SVG!CoreFits(t)
